@@ -110,7 +110,7 @@ Definition csd_call : call := CDecode no_opts (mk_reader csd_stream [] TEOF fals
 (* the same file with the compressed_speed_distance bytes all 0xFF (invalid) *)
 Definition plain_stream : list N :=
   [12; 16; 92; 8; 28; 0; 0; 0; 46; 70; 73; 84; 64; 0; 0; 0; 0; 1; 0; 1; 0; 0; 4; 65; 0; 0; 20; 0; 1; 8; 3; 13;
-   1; 255; 255; 255; 1; 255; 255; 255; 0; 0].
+   1; 255; 255; 255; 1; 255; 255; 255; 190; 157].
 Definition plain_call : call := CDecode no_opts (mk_reader plain_stream [] TEOF false 0) 100.
 
 (* Distance of the record messages of a decoded activity *)
@@ -142,8 +142,18 @@ Qed.
 
 (* the side conditions are satisfiable by a file that decodes without error and holds record messages *)
 Lemma plain_call_ok : no_accumulated_sourceb plain_call = true /\ no_distance_sourceb plain_call = true /\
-  List.length (record_distances (fresh plain_call)) = 2%nat.
-Proof. repeat split; vm_compute; reflexivity. Qed.
+  obs_ok (fresh plain_call) = true /\ List.length (record_distances (fresh plain_call)) = 2%nat.
+Proof. split; [|split; [|split]]; vm_compute; reflexivity. Qed.
+
+(* two record messages carrying cycles (5, 9) and no compressed_speed_distance: inside the domain of
+   history_free (total_cycles is always 0: mask 0), outside that of C09's noninterference *)
+Definition cycles_stream : list N :=
+  [12; 16; 92; 8; 24; 0; 0; 0; 46; 70; 73; 84; 64; 0; 0; 0; 0; 1; 0; 1; 0; 0; 4; 65; 0; 0; 20; 0; 1; 18; 1; 2;
+   1; 5; 1; 9; 150; 215].
+Definition cycles_call : call := CDecode no_opts (mk_reader cycles_stream [] TEOF false 0) 100.
+Lemma cycles_call_ok : no_distance_sourceb cycles_call = true /\ no_accumulated_sourceb cycles_call = false /\
+  obs_ok (fresh cycles_call) = true /\ touched cycles_call = [LCycles] /\ touched csd_call = [LDist].
+Proof. split; [|split; [|split; [|split]]]; vm_compute; reflexivity. Qed.
 
 Lemma no_accumulated_sourceb_spec c : no_accumulated_sourceb c = true <-> no_accumulated_source c.
 Proof.
